@@ -134,6 +134,35 @@ def _g0():
                             (-(x * q)) / q == -x)
 
 
+def _dq():
+    n, d = I("n"), I("d")
+    x = R("x")
+    # the Euclidean identity is the SMT-LIB definition of div / mod (theory
+    # Ints); z3 does not instantiate it for a symbolic divisor by itself
+    return n, d, x, [d > 0, z3.ToReal(n) == x * z3.ToReal(d),
+                     n == d * (n / d) + n % d]
+
+
+@lemma("field/quotient-form", ["C13"], "n == x*d, d > 0  =>  n/d == x")
+def _g0b():
+    n, d, x, hyp = _dq()
+    return hyp, z3.ToReal(n) / z3.ToReal(d) == x
+
+
+@lemma("field/divisible-quotient-integral", ["C13"],
+       "n == x*d, d > 0, d | n  =>  x == n div d (so x is integral)")
+def _g0c():
+    n, d, x, hyp = _dq()
+    return hyp + [n % d == 0], x == z3.ToReal(n / d)
+
+
+@lemma("field/integral-quotient-divisible", ["C13"],
+       "n == x*d, d > 0, x integral  =>  d | n")
+def _g0d():
+    n, d, x, hyp = _dq()
+    return hyp + [x == z3.ToReal(z3.ToInt(x))], n % d == 0
+
+
 @lemma("grid/sum-of-multiples-not-rounded", ["C03", "C05"],
        "a = i*q, e = j*q, q > 0  =>  rounding (a +- e)/q gives (a +- e)/q "
        "(uses the instance x:=i, y:=+-j of field/cancel-common-factor)")
